@@ -1663,7 +1663,7 @@ func checkC11e2e(in *exInput) []exFinding {
 			return exFirstPerShape(fs)
 		}
 		d := exRespellingDiff(g, ref, res)
-		if kind := exOpKind[in.Op]; in.Op != "" && in.Op != "expand_spec" && d != nil && kind != "" && !ref.Err && !res.Err && !g.Acyclic {
+		if kind := exOpKind[in.Op]; in.Op != "" && in.Op != "expand_spec" && in.Op != "resolve" && d != nil && kind != "" && !ref.Err && !res.Err && !g.Acyclic {
 			// a single element: what it denotes at the root location
 			st := g.store()
 			if exJSON(st.unfold(g.Root, exDecode(ref.Out), kind, exDepth)) == exJSON(st.unfold(g.Root, exDecode(res.Out), kind, exDepth)) &&
@@ -1750,7 +1750,7 @@ func exSpellingVariants(r *rng, g *exGraph) []*exInput {
 			if ec.Form != "ref" {
 				continue
 			}
-			kind := exOpKind[ec.Op]
+			kind := map[string]string{"expand_schema": "Schema", "expand_param": "Parameter", "expand_response": "Response"}[ec.Op]
 			if kind == "" {
 				continue
 			}
